@@ -6,12 +6,14 @@
 //	              table of signature verification is computed with crypto/rsa
 //	              directly and handed to the model
 //	-stage sweep  exhaustive byte-level mutation of validly signed archives on
-//	              the real code (exploration; prints IMPL-VIOLATION / STAT lines)
+//	              the real code; every mutant is handed to the mutant-oracle
+//	              validator (Spec/IndexBytesSpec.v), see sweep.go
+//	-stage repos  histories of GetRepositoryIndexes calls, see repos.go
+//	-stage vctx   verificationContext on pairs of requests, see vctx.go
 package main
 
 import (
 	"bytes"
-	"compress/gzip"
 	"context"
 	"crypto"
 	"crypto/rsa"
@@ -25,7 +27,6 @@ import (
 	"io"
 	"log/slog"
 	"os"
-	"sort"
 	"strings"
 
 	"chainguard.dev/apko/pkg/apk/apk"
@@ -342,10 +343,23 @@ func runParse(w *world, pc *parseCase) (gal.Case, []byte) {
 		}()
 		idx, err = apk.VerifC04ParseRepositoryIndex(context.Background(), pc.URL, keys, pc.Arch, whole, opts...)
 	}()
-	obs := "None"
+	obs, obsSig := "None", "None"
 	accepted := err == nil && idx != nil
 	if accepted {
 		obs = fmt.Sprintf("(Some (%s, %s))", gal.StrList(pkgList(idx)), gal.Bytes([]byte(idx.Description)))
+		if idx.Signature != nil {
+			// the body of an entry of the first member is known to the model by its fingerprint
+			sg := idx.Signature
+			if !pc.NoFirst {
+				for _, e := range first.Entries {
+					if bytes.Equal(e.Body, sg) {
+						sg = fingerprint(e.Body)
+						break
+					}
+				}
+			}
+			obsSig = "(Some " + gal.Bytes(sg) + ")"
+		}
 	}
 
 	// Gallina term
@@ -361,9 +375,9 @@ func runParse(w *world, pc *parseCase) (gal.Case, []byte) {
 		}
 		gm = append(gm, galMember(es, m.Pending, m.Tail))
 	}
-	term := fmt.Sprintf("{| p_ignore := %s; p_listed := %s; p_url := %s; p_arch := %s; p_keys := %s; p_members := %s; p_verify := %s; p_texts := %s; o_should_check := %s; o_result := %s |}",
+	term := fmt.Sprintf("{| p_ignore := %s; p_listed := %s; p_url := %s; p_arch := %s; p_keys := %s; p_members := %s; p_verify := %s; p_texts := %s; o_should_check := %s; o_result := %s; o_signature := %s |}",
 		gal.Bool(pc.Ignore), gal.StrList(pc.Listed), gal.Str(pc.URL), gal.Str(pc.Arch), gal.StrList(pc.Keys),
-		gal.List(gm), gal.List(vt), gal.List(tt), gal.Bool(should), obs)
+		gal.List(gm), gal.List(vt), gal.List(tt), gal.Bool(should), obs, obsSig)
 	class := "reject"
 	if accepted {
 		class = "accept"
@@ -810,297 +824,11 @@ func namesStage(dir string, seed uint64, tier string) error {
 	return wr.Flush()
 }
 
-// ---- sweep stage (exploration on the real code) -------------------------------
-
-type signedArchive struct {
-	label  string
-	whole  []byte
-	region []byte // the signed bytes (suffix of whole)
-	keys   map[string][]byte
-	pkgs   []string
-}
-
-func mustIndexPkgs(region []byte) []string {
-	idx, err := apk.IndexFromArchive(io.NopCloser(bytes.NewReader(region)))
-	if err != nil {
-		panic(err)
-	}
-	return pkgList(idx)
-}
-
-// what the first gzip member's tar stream ends with
-func firstMemberEnding(b []byte) string {
-	zr, err := gzip.NewReader(bytes.NewReader(b))
-	if err != nil {
-		return ""
-	}
-	zr.Multistream(false)
-	raw, _ := io.ReadAll(zr)
-	pos, zeros, last := 0, 0, ""
-	for pos+512 <= len(raw) {
-		blk := raw[pos : pos+512]
-		if bytes.Equal(blk, make([]byte, 512)) {
-			zeros++
-			pos += 512
-			continue
-		}
-		zeros = 0
-		var size int64
-		fmt.Sscanf(strings.TrimRight(string(blk[124:136]), " \x00"), "%o", &size)
-		last = string(blk[156:157])
-		pos += 512 + int((size+511)/512*512)
-	}
-	switch {
-	case zeros >= 2:
-		return "end-of-archive-in-signature-member"
-	case zeros == 1:
-		return "zero-block-in-signature-member"
-	case last == "x" || last == "L" || last == "K" || last == "g":
-		return "pending-meta-header"
-	}
-	return ""
-}
-
-type sweeper struct {
-	signed    []signedArchive // every byte string that was genuinely signed
-	total     int
-	accepted  int
-	identical int
-	viol      map[string]int
-	reported  map[string]bool
-}
-
-// judge one mutant against the property itself
-func (s *sweeper) try(base *signedArchive, kind string, pos int, mutant []byte) {
-	s.total++
-	var idx *apk.APKIndex
-	var err error
-	func() {
-		defer func() {
-			if r := recover(); r != nil {
-				err = fmt.Errorf("panic: %v", r)
-				s.report("parse-repository-index-panics", base, kind, pos, mutant)
-			}
-		}()
-		idx, err = apk.VerifC04ParseRepositoryIndex(context.Background(), "https://repo.example/os/x86_64/APKINDEX.tar.gz", base.keys, "x86_64", mutant)
-	}()
-	if err != nil || idx == nil {
-		return
-	}
-	s.accepted++
-	// an accepted mutant must end with a byte string that was signed ...
-	var match *signedArchive
-	for i := range s.signed {
-		sa := &s.signed[i]
-		if bytes.HasSuffix(mutant, sa.region) && len(sa.region) > 0 && sameKeys(sa, base) {
-			if match == nil || len(sa.region) > len(match.region) {
-				match = sa
-			}
-		}
-	}
-	if match == nil {
-		s.report("accepted-unsigned-content", base, kind, pos, mutant)
-		return
-	}
-	s.identical++
-	// ... and hand exactly that content's packages to resolution
-	if got := pkgList(idx); strings.Join(got, " ") != strings.Join(match.pkgs, " ") {
-		tag := "parsed-differs-from-signed"
-		if e := firstMemberEnding(mutant); e != "" {
-			tag += "/" + e
-		}
-		s.report(tag, base, kind, pos, mutant)
-	}
-}
-
-func sameKeys(a, b *signedArchive) bool {
-	for k := range a.keys {
-		if _, ok := b.keys[k]; ok {
-			return true
-		}
-	}
-	return false
-}
-
-func (s *sweeper) report(tag string, base *signedArchive, kind string, pos int, mutant []byte) {
-	s.viol[tag]++
-	key := tag + "|" + base.label + "|" + kind
-	if s.reported[key] {
-		return
-	}
-	s.reported[key] = true
-	d, _ := json.Marshal(map[string]any{"base": base.label, "mutation": kind, "at": pos, "len": len(mutant), "exploration": true})
-	fmt.Printf("IMPL-VIOLATION tag=%s %s\n", tag, d)
-}
-
-func sweepStage(seed uint64, tier string) error {
-	r := gal.NewRand(seed + 4242)
-	w := &world{keys: map[string]*synthrepo.Key{}}
-	sw := &sweeper{viol: map[string]int{}, reported: map[string]bool{}}
-	short := "C:Q1AAAAAAAAAAAAAAAAAAAAAAAAAAA=\nP:a\nV:1.0-r0\n\nC:Q1AAAAAAAAAAAAAAAAAAAAAAAAAAA=\nP:b\nV:2.0-r1\nD:a\n\n"
-	other := "C:Q1AAAAAAAAAAAAAAAAAAAAAAAAAAA=\nP:evil\nV:6.6-r6\n\n"
-	long := fixedText(12)
-	_ = r
-	mk := func(label string, rest []member, alg string, stored bool) signedArchive {
-		region := concatGz(rest)
-		d := "SHA256"
-		if alg == "RSA" {
-			d = "SHA1"
-		}
-		first := member{Entries: []entry{{Name: ".SIGN." + alg + "." + k1, Body: sign(w.key(k1), d, region)}}, Stored: stored}
-		return signedArchive{label: label, whole: append(first.gz(), region...), region: region,
-			keys: map[string][]byte{k1: w.key(k1).Pub}, pkgs: mustIndexPkgs(region)}
-	}
-	st := func(ms []member) []member {
-		for i := range ms {
-			ms[i].Stored = true
-		}
-		return ms
-	}
-	bases := []signedArchive{
-		mk("D-first RSA256", restDFirst(short), "RSA256", false),
-		mk("A-first RSA", restAFirst(short), "RSA", false),
-		mk("A-first RSA256 stored", st(restAFirst(short)), "RSA256", true),
-		mk("A-first long RSA256", restAFirst(long), "RSA256", false),
-		mk("other content RSA256", restDFirst(other), "RSA256", false),
-	}
-	sw.signed = bases
-
-	for bi := range bases {
-		b := &bases[bi]
-		// sanity: the base itself is accepted
-		before := sw.accepted
-		sw.try(b, "none", -1, b.whole)
-		if sw.accepted != before+1 {
-			return fmt.Errorf("base archive %q is not accepted", b.label)
-		}
-		n := len(b.whole)
-		// every truncation point
-		for cut := 0; cut < n; cut++ {
-			sw.try(b, "truncate", cut, b.whole[:cut])
-		}
-		// single-byte alterations
-		allValues := tier == "thorough" && bi < 3
-		step := 1
-		if tier != "thorough" && bi >= 2 {
-			step = 7
-		}
-		for pos := 0; pos < n; pos += step {
-			m := append([]byte{}, b.whole...)
-			if allValues {
-				for v := 1; v < 256; v++ {
-					m[pos] = b.whole[pos] ^ byte(v)
-					sw.try(b, "byte", pos, m)
-				}
-				continue
-			}
-			for bit := 0; bit < 8; bit++ {
-				if tier != "thorough" && bit != pos%8 && bit != (pos+3)%8 {
-					continue
-				}
-				m[pos] = b.whole[pos] ^ (1 << bit)
-				sw.try(b, "bit", pos, m)
-			}
-			m[pos] = ^b.whole[pos]
-			sw.try(b, "invert", pos, m)
-			m[pos] = 0
-			if b.whole[pos] != 0 {
-				sw.try(b, "zero", pos, m)
-			}
-		}
-		// single-byte deletions and insertions at a spread of positions
-		dstep := 5
-		if tier == "thorough" {
-			dstep = 1
-		}
-		for pos := 0; pos < n; pos += dstep {
-			sw.try(b, "delete", pos, append(append([]byte{}, b.whole[:pos]...), b.whole[pos+1:]...))
-			sw.try(b, "insert", pos, append(append(append([]byte{}, b.whole[:pos]...), 0x41), b.whole[pos:]...))
-		}
-		// appended bytes
-		sw.try(b, "append-byte", n, append(append([]byte{}, b.whole...), 0))
-		sw.try(b, "append-member", n, append(append([]byte{}, b.whole...), bases[4].region...))
-	}
-	// splices between signed archives: signature member of X in front of the content of Y
-	firstLen := func(a *signedArchive) int { return len(a.whole) - len(a.region) }
-	for xi := range bases {
-		for yi := range bases {
-			if xi == yi {
-				continue
-			}
-			x, y := &bases[xi], &bases[yi]
-			sw.try(x, "splice:sig(X)+content(Y):"+y.label, 0, append(append([]byte{}, x.whole[:firstLen(x)]...), y.region...))
-			sw.try(x, "splice:X+content(Y):"+y.label, 0, append(append([]byte{}, x.whole...), y.region...))
-			sw.try(x, "splice:sig(X)+content(Y)+content(X):"+y.label, 0, append(append(append([]byte{}, x.whole[:firstLen(x)]...), y.region...), x.region...))
-			sw.try(x, "splice:content(Y)+X:"+y.label, 0, append(append([]byte{}, y.region...), x.whole...))
-			sw.try(x, "splice:sig(Y)+X:"+y.label, 0, append(append([]byte{}, y.whole[:firstLen(y)]...), x.whole...))
-			// byte-level cross-over at a spread of cut points
-			for cut := 0; cut < len(x.whole) && cut < len(y.whole); cut += 13 {
-				sw.try(x, "crossover:"+y.label, cut, append(append([]byte{}, x.whole[:cut]...), y.whole[cut:]...))
-			}
-		}
-	}
-	// what the signature member may leave behind for the parse pass: the genuine
-	// signature entry followed by hand-made tar blocks
-	for bi := range bases {
-		b := &bases[bi]
-		sigRaw := func() []byte {
-			zr, _ := gzip.NewReader(bytes.NewReader(b.whole))
-			zr.Multistream(false)
-			raw, _ := io.ReadAll(zr)
-			return raw
-		}()
-		withTail := func(kind string, at int, tailBlocks []byte, stored bool) {
-			raw := append(append([]byte{}, sigRaw...), tailBlocks...)
-			var seg []byte
-			if stored {
-				seg = synthrepo.GzStored(raw)
-			} else {
-				seg, _ = synthrepo.Gz(raw)
-			}
-			sw.try(b, kind, at, append(seg, b.region...))
-		}
-		maxSize := 3000
-		sstep := 1
-		if tier != "thorough" {
-			sstep = 3
-		}
-		for k := 0; k <= maxSize; k += sstep {
-			withTail("pending-pax-size", k, synthrepo.PaxMeta(map[string]string{"size": fmt.Sprint(k)}), k%2 == 0)
-		}
-		for _, nm := range []string{".SIGN.x", "APKINDEX", "DESCRIPTION", "other", ".SIGN.RSA256." + k1} {
-			withTail("pending-pax-path:"+nm, 0, synthrepo.PaxMeta(map[string]string{"path": nm}), false)
-			withTail("pending-gnu-longname:"+nm, 0, synthrepo.GnuLongName(nm), false)
-			withTail("pending-gnu-longlink:"+nm, 0, synthrepo.GnuLongLink(nm), false)
-			for _, k := range []int{0, 1, 100, 511, 512, 513} {
-				withTail("pending-pax-path+size:"+nm, k, synthrepo.PaxMeta(map[string]string{"path": nm, "size": fmt.Sprint(k)}), false)
-			}
-		}
-		withTail("pax-global", 0, synthrepo.PaxGlobal(".SIGN.RSA256.unknown.rsa.pub", map[string]string{"path": "APKINDEX", "size": "10"}), false)
-		for z := 1; z <= 4; z++ {
-			withTail("zero-blocks", z, make([]byte, 512*z), false)
-		}
-		withTail("eoa-then-evil-index", 0, append(make([]byte, 1024), synthrepo.RawEntry("APKINDEX", []byte(other), '0')...), false)
-		withTail("evil-index-entry", 0, synthrepo.RawEntry("APKINDEX", []byte(other), '0'), false)
-		withTail("evil-index-entry-as-.SIGN", 0, synthrepo.RawEntry(".SIGN.RSA256.unknown.rsa.pub", []byte(other), '0'), false)
-		withTail("pending-pax-then-pax", 0, append(synthrepo.PaxMeta(map[string]string{"size": "10"}), synthrepo.PaxMeta(map[string]string{"path": ".SIGN.x"})...), false)
-	}
-	tags := make([]string, 0, len(sw.viol))
-	for t := range sw.viol {
-		tags = append(tags, t)
-	}
-	sort.Strings(tags)
-	st2, _ := json.Marshal(map[string]any{"sweep_mutants": sw.total, "sweep_accepted": sw.accepted, "sweep_accepted_with_signed_region_intact": sw.identical,
-		"sweep_violations_by_tag": sw.viol, "sweep_note": "exploration on the real code; not a proof obligation"})
-	fmt.Printf("STAT %s\n", st2)
-	return nil
-}
-
 func main() {
 	out := flag.String("out", "", "cases dir")
 	seed := flag.Uint64("seed", 1, "seed")
 	tier := flag.String("tier", "quick", "tier")
-	stage := flag.String("stage", "parse", "names|parse|sweep|repos")
+	stage := flag.String("stage", "parse", "names|parse|sweep|repos|vctx")
 	flag.String("replay", "", "unused")
 	flag.Parse()
 	slog.SetDefault(slog.New(slog.NewTextHandler(io.Discard, nil))) // the code under test logs every failed verification
@@ -1111,9 +839,11 @@ func main() {
 	case "parse":
 		err = parseStage(*out, *seed, *tier)
 	case "sweep":
-		err = sweepStage(*seed, *tier)
+		err = sweepStage(*out, *seed, *tier)
 	case "repos":
 		err = reposStage(*out, *seed, *tier)
+	case "vctx":
+		err = vctxStage(*out, *seed, *tier)
 	default:
 		err = fmt.Errorf("unknown stage %q", *stage)
 	}
